@@ -19,4 +19,9 @@ fp("dask/bag/core.py", "Bag.fold", "Bag.foldby", "Bag.frequencies", "Bag.topk", 
    "_repartition_from_boundaries", "split", "_reduce", "_reduce_or_initial", "merge_frequencies", "merge_distinct",
    "chunk_distinct", "safe_take", "Bag.map", "Bag.filter", "Bag.remove", "Bag.pluck", "Bag.flatten", "Bag.map_partitions")
 fp("dask/bag/chunk.py", "groupby_tasks_group_hash", "foldby_combine2", "var_chunk", "var_aggregate")
+# review round: newly modelled / newly tied functions
+fp("dask/bag/core.py", "Bag.mean", "Bag.var", "Bag.std", "Bag.repartition", "repartition_size", "total_mem_usage",
+   "Bag.to_delayed", "from_delayed", "Bag.to_dataframe", "to_dataframe", "Item.from_delayed", "Item.to_delayed",
+   "lazify_task", "lazify", "optimize")
+fp("dask/utils.py", "iter_chunks")
 fp("dask/utils.py", "digit", "insert")
